@@ -38,6 +38,8 @@ def cloud(draw, dmin=2, dmax=4, interior=True):
     # anisotropic stretch up to 1e3 and an offset
     stretch = np.asarray([draw(st.sampled_from([1.0, 1.0, 10.0, 1e3, 1e-2])) for _ in range(d)])
     P = P * stretch + np.asarray(draw(gens.array((d,), -5.0, 5.0, styles=("raw", "int"))))
+    # absolute size of the whole cloud (captures in small or large units): simplex volumes scale like size ** d
+    P = P * draw(st.sampled_from([1.0, 1.0, 1.0, 1e-2, 1e-4, 1e-6, 1e3]))
     return P.tolist()
 
 
@@ -85,8 +87,8 @@ def body_membership(case):
     # LP cross-check on a few samples
     span = np.max(P.max(0) - P.min(0))
     for x in X[: min(3, n)]:
-        d, _ = hull_dist(P, x)
-        check(d <= 1e-8 * span, "sample:not-a-convex-combination", f"sample at LP distance {d:.3g} from the hull")
+        d, _ = hull_dist((P - P.min(0)) / span, (x - P.min(0)) / span)        # the LP's tolerances are absolute: cloud brought to size 1
+        check(d <= 1e-8, "sample:not-a-convex-combination", f"sample at LP distance {d:.3g} (relative to the size of the hull) from the hull")
     check(np.array_equal(X, X2), "sample:seed-not-reproducible", f"same int seed gives different samples (engine {engine})")
     check(np.array_equal(X3, X4), "sample:generator-not-reproducible", f"generators in equal states give different samples (engine {engine})")
     labs = [f"d{P.shape[1]}", f"engine:{engine}", "n1" if n == 1 else ("n<=40" if n <= 40 else ("n>40" if n < 100000 else "nt:n=1e5"))]
